@@ -96,11 +96,16 @@ def _lane_cands(eb):
           0x0807060504030201 & M, 0xF1E2D3C4B5A69788 & M, eb, eb - 1, eb + 1, 7, 8, 9]
     if eb == 32:
         c += [0x3F800000, 0xBF800000, 0x7F800000, 0xFF800000, 0x7FC00000,
-              0xFFC00000, 0x7F7FFFFF, 0x00800000, 0x40200000, 0x3F000000]
+              0xFFC00000, 0x7F7FFFFF, 0x00800000, 0x40200000, 0x3F000000,
+              0x007FFFFF, 0x00400000, 0x80000001, 0xBF000000, 0x3FC00000, 0xC0200000, 0x4B000000, 0x4AFFFFFF,
+              0x4B000001, 0x3EFFFFFF, 0x7F800001, 0x00000003, 0x41C80000, 0x0DA24260]
     elif eb == 64:
         c += [0x3FF0000000000000, 0xBFF0000000000000, 0x7FF0000000000000,
               0xFFF0000000000000, 0x7FF8000000000000, 0xFFF8000000000000,
-              0x4004000000000000, 0x3FE0000000000000, 0x0010000000000000]
+              0x4004000000000000, 0x3FE0000000000000, 0x0010000000000000,
+              0x000FFFFFFFFFFFFF, 0x0008000000000000, 0x8000000000000001, 0xBFE0000000000000, 0x3FF8000000000000,
+              0xC004000000000000, 0x4330000000000000, 0x432FFFFFFFFFFFFF, 0x4330000000000001, 0x3FDFFFFFFFFFFFFF,
+              0x7FF0000000000001, 0x4039000000000000, 0x7FEFFFFFFFFFFFFF]
     out = []
     for x in c:
         x &= M
@@ -231,7 +236,7 @@ def _one_env(actual, expected, args, names, lane_bits, watch, rm, fp):
             return w
         except T.Uneval:
             return None
-        if a != e and not (fp and lane_bits in (32, 64) and _same_mod_nan(a, e, actual[1], lane_bits)):
+        if a != e and not ((fp or NUMEQ[0]) and lane_bits in (32, 64) and _same_mod_nan(a, e, actual[1], lane_bits)):
             w = {"args": {}, "got": hex(a), "expected": hex(e)}
             if fp:
                 w["rounding_mode"] = rm
@@ -265,7 +270,7 @@ def interpreted(t):
         if not isinstance(x, tuple) or id(x) in seen:
             continue
         seen.add(id(x))
-        if x[0] not in OK and not x[0].startswith("fr:"):
+        if x[0] not in OK and not x[0].startswith("fr:") and not x[0].startswith("spec:c_"):
             return False
         for y in x[2:]:
             if isinstance(y, tuple):
